@@ -241,6 +241,8 @@ pub struct Model<'a> {
     last_simple: Option<(StmtId, u32, bool)>,
     /// header line of the block statement whose failure is being handled
     header_part: Option<usize>,
+    /// tag of the segment matched last (classification of what follows a file value)
+    prev_seg_tag: Option<Tag>,
     /// the unhandled error that ends the program was raised by this header line
     abort_header_part: Option<(StmtId, usize)>,
 }
@@ -322,6 +324,7 @@ impl<'a> Model<'a> {
             pending_errors_used: HashMap::new(),
             last_simple: None,
             header_part: None,
+            prev_seg_tag: None,
             abort_header_part: None,
         }
     }
@@ -1923,6 +1926,7 @@ impl<'a> Model<'a> {
                 if let DevKey::Inst(inst) = k {
                     self.append_to_file(inst, &a);
                 }
+                self.prev_seg_tag = Some(seg.tag);
                 Ok(())
             }
             None => {
@@ -1944,6 +1948,14 @@ impl<'a> Model<'a> {
                 // a value item whose bytes are not even a well-formed number token is a
                 // layout problem (wrong device, missing sign/space), not a wrong value
                 let mut class = Self::class_of_tag(seg.tag);
+                // a string read from a file that came out longer (or otherwise different
+                // behind a matching prefix) shows at the literal that follows it: that is a
+                // wrong value from a file, not a layout problem
+                if matches!(seg.tag, Tag::Literal)
+                    && matches!(self.prev_seg_tag, Some(Tag::FileValue))
+                {
+                    class = Class::FileData;
+                }
                 let numeric = seg.alts[0].len() >= 3
                     && (seg.alts[0][0] == b' ' || seg.alts[0][0] == b'-')
                     && *seg.alts[0].last().unwrap() == b' '
